@@ -31,6 +31,30 @@ def askBool (tbl : Table) (q : String) : Except Err Bool := do
   let a ← ask tbl q
   pure (a == "T")
 
+/-- `kty;isPrivate;crv;bits;rawhex;handle;dictJVal` -/
+def readKey (s : String) : Option Key :=
+  match s.splitOn ";" with
+  | [kty, priv, crv, bits, raw, handle, dict] => do
+    let d ← readJVal dict
+    let kvs ← match d with | .obj kvs => some kvs | _ => none
+    some { kty := kty, isPrivate := priv == "1", crv := if crv == "-" then "" else crv,
+           bits := ← bits.toNat?, raw := ← hexToBytes raw, handle := ← handle.toNat?, dict := kvs }
+  | _ => none
+
+def askKey (tbl : Table) (q : String) : Except Err Key := do
+  let a ← ask tbl q
+  ofOpt (readKey a) .cryptoInternal
+
+def askPair (tbl : Table) (q : String) : Except Err (Bytes × Bytes) := do
+  let a ← ask tbl q
+  match a.splitOn ":" with
+  | [x, y] => match hexToBytes x, hexToBytes y with
+    | some x, some y => pure (x, y)
+    | _, _ => throw .cryptoInternal
+  | _ => throw .cryptoInternal
+
+def hx (b : Bytes) : String := bytesToHex b
+
 def oraclePrims (tbl : Table) : Prims where
   jsonLoads b := do
     let a ← ask tbl ("jl:" ++ bytesToHex b)
@@ -52,19 +76,33 @@ def oraclePrims (tbl : Table) : Prims where
   choice n := do
     let a ← ask tbl ("ch:" ++ toString n)
     ofOpt a.toNat? .cryptoInternal
+  tokenBytes idx n := askBytes tbl ("tb:" ++ toString idx ++ ":" ++ toString n)
+  genEphemeral idx k := askKey tbl ("ge:" ++ toString idx ++ ":" ++ k.kty ++ ":" ++ k.crv)
+  keyFromDict kty d := askKey tbl ("kd:" ++ kty ++ ":" ++ showJVal (.obj d))
+  rsaEncrypt a k m := askBytes tbl ("re:" ++ a.name ++ ":" ++ toString k.handle ++ ":" ++ hx m)
+  rsaDecrypt a k m := askBytes tbl ("rd:" ++ a.name ++ ":" ++ toString k.handle ++ ":" ++ hx m)
+  aesKeyWrap kek cek := askBytes tbl ("kw:" ++ hx kek ++ ":" ++ hx cek)
+  aesKeyUnwrap kek ek := askBytes tbl ("ku:" ++ hx kek ++ ":" ++ hx ek)
+  gcmEncrypt k iv aad pt := askPair tbl ("gcme:" ++ hx k ++ ":" ++ hx iv ++ ":" ++ hx aad ++ ":" ++ hx pt)
+  gcmDecrypt k iv aad ct tag := askBytes tbl ("gcmd:" ++ hx k ++ ":" ++ hx iv ++ ":" ++ hx aad ++ ":" ++ hx ct ++ ":" ++ hx tag)
+  cbcEncrypt k iv pt := askBytes tbl ("cbce:" ++ hx k ++ ":" ++ hx iv ++ ":" ++ hx pt)
+  cbcDecrypt k iv ct := askBytes tbl ("cbcd:" ++ hx k ++ ":" ++ hx iv ++ ":" ++ hx ct)
+  chachaEncrypt k n aad pt := askPair tbl ("cce:" ++ hx k ++ ":" ++ hx n ++ ":" ++ hx aad ++ ":" ++ hx pt)
+  chachaDecrypt k n aad ct tag := askBytes tbl ("ccd:" ++ hx k ++ ":" ++ hx n ++ ":" ++ hx aad ++ ":" ++ hx ct ++ ":" ++ hx tag)
+  concatKdf z info len := askBytes tbl ("ckdf:" ++ hx z ++ ":" ++ hx info ++ ":" ++ toString len)
+  pbkdf2 h pw salt iters len := askBytes tbl ("pb:" ++ h ++ ":" ++ hx pw ++ ":" ++ hx salt ++ ":" ++ toString iters ++ ":" ++ toString len)
+  dh priv pub := askBytes tbl ("dh:" ++ toString priv.handle ++ ":" ++ toString pub.handle)
+  deflateRaw b := askBytes tbl ("df:" ++ hx b)
+  inflate zh b mx := do
+    let a ← ask tbl ("inf:" ++ (if zh then "1" else "0") ++ ":" ++ hx b ++ ":" ++ toString mx)
+    match a.splitOn ":" with
+    | [x, more] => match hexToBytes x with
+      | some x => pure (x, more == "T")
+      | none => throw .cryptoInternal
+    | _ => throw .cryptoInternal
 
 def env : Env := Generated.env
 def keyEnv : KeyEnv := Generated.keyEnv
-
-/-- `kty;isPrivate;crv;bits;rawhex;handle;dictJVal` -/
-def readKey (s : String) : Option Key :=
-  match s.splitOn ";" with
-  | [kty, priv, crv, bits, raw, handle, dict] => do
-    let d ← readJVal dict
-    let kvs ← match d with | .obj kvs => some kvs | _ => none
-    some { kty := kty, isPrivate := priv == "1", crv := if crv == "-" then "" else crv,
-           bits := ← bits.toNat?, raw := ← hexToBytes raw, handle := ← handle.toNat?, dict := kvs }
-  | _ => none
 
 def readKeyBase (s : String) : Option KeyBase :=
   if s.startsWith "K=" then (readKey (s.drop 2).toString).map KeyBase.key
